@@ -1,9 +1,15 @@
 /-
-  Driver handler for C16: `str <command> <args list>` →
-  `ok <opt value>` | `err` | `PANIC` | `arr <list>` | `unmodelled`
+  Driver handler for C16:
+  * `str <command> <args list>` →
+    `ok <opt value>` | `err` | `PANIC` | `arr <list>` | `unmodelled`
+  * `casetab lower|upper` → the whole table `cp:t+t+t,…` (sorted by code point) of the characters
+    `char::to_lowercase` / `char::to_uppercase` change; `casetab cased|ignorable` → the ranges
+    `a-b,…` — compared with the installed toolchain on every run
+  * `calc <args list>` → `Q <num>/<den>` | `APPROX` | `ERR` | `unmodelled`
 -/
 import DuckModel.Wire
 import DuckModel.Sdk.Strings
+import DuckModel.Sdk.Calc
 
 namespace Duck.Drv.C16
 open Duck Duck.Wire Duck.Strings
@@ -22,11 +28,31 @@ def encOut : Out → String
   | .panic => "PANIC"
   | .unmodelled => "unmodelled"
 
+def encMap (m : List (Nat × List Nat)) : String :=
+  ",".intercalate (m.map fun e => toString e.1 ++ ":" ++ "+".intercalate (e.2.map toString))
+
+def encRanges (rs : List (Nat × Nat)) : String :=
+  ",".intercalate (rs.map fun r => toString r.1 ++ "-" ++ toString r.2)
+
+def encAns : Calc.Ans → String
+  | .err => "ERR"
+  | .q f => "Q " ++ toString f.num ++ "/" ++ toString f.den
+  | .approx => "APPROX"
+  | .unmodelled => "unmodelled"
+
 def handle (toks : List String) : Option String :=
   match toks with
   | ["str", cmd, args] =>
     match decList args with
     | some a => (run cmd a).map encOut
+    | none => some "BAD-REQUEST"
+  | ["casetab", "lower"] => some (encMap UCase.lowerMap)
+  | ["casetab", "upper"] => some (encMap UCase.upperMap)
+  | ["casetab", "cased"] => some (encRanges UCase.casedRanges)
+  | ["casetab", "ignorable"] => some (encRanges UCase.caseIgnorableRanges)
+  | ["calc", args] =>
+    match decList args with
+    | some a => some (encAns (Calc.calcCmd a))
     | none => some "BAD-REQUEST"
   | _ => none
 
